@@ -639,11 +639,83 @@ impl<'a, 'ast> Visit<'ast> for Collector<'a> {
             }
         }
     }
+    fn visit_expr_match(&mut self, m: &'ast syn::ExprMatch) {
+        fn lit_strs(p: &syn::Pat, out: &mut Vec<String>) -> bool {
+            match p {
+                syn::Pat::Lit(l) => {
+                    if let syn::Lit::Str(s) = &l.lit {
+                        out.push(s.token().to_string());
+                        true
+                    } else {
+                        false
+                    }
+                }
+                syn::Pat::Or(o) => o.cases.iter().all(|c| lit_strs(c, out)),
+                _ => false,
+            }
+        }
+        let mut any_str = false;
+        for a in &m.arms {
+            let mut v = Vec::new();
+            if lit_strs(&a.pat, &mut v) {
+                any_str = true;
+            }
+        }
+        if !any_str {
+            syn::visit::visit_expr_match(self, m);
+            return;
+        }
+        // R9: `match s { "a" => A, "b" | "c" => B, other => Z }` becomes an if-chain over str_eq
+        let scrut = self.render(&m.expr);
+        let mut out = format!("{{ let scrut__ = {scrut}; ");
+        let mut closed = false;
+        for (i, a) in m.arms.iter().enumerate() {
+            let mut lits = Vec::new();
+            let body = self.render(&a.body);
+            if a.guard.is_some() {
+                self.errors.push("match guard in string match".into());
+            }
+            if lit_strs(&a.pat, &mut lits) {
+                let cond: Vec<String> = lits.iter().map(|l| format!("str_eq(scrut__, {l})")).collect();
+                let _ = write!(out, "{}if {} {{ {} }}", if i == 0 { "" } else { " else " }, cond.join(" || "), body);
+            } else {
+                let bind = match &a.pat {
+                    syn::Pat::Wild(_) => String::new(),
+                    syn::Pat::Ident(pi) => format!("let {} = scrut__; ", pi.ident),
+                    _ => {
+                        self.errors.push("unsupported catch-all pattern in string match".into());
+                        String::new()
+                    }
+                };
+                let _ = write!(out, "{}{{ {}{} }}", if i == 0 { "" } else { " else " }, bind, body);
+                closed = true;
+                break;
+            }
+        }
+        if !closed {
+            self.errors.push("string match without catch-all arm".into());
+        }
+        out.push_str(" }");
+        let (s, e) = range(m.span());
+        self.push(s, e, out, "R9");
+    }
     fn visit_expr_method_call(&mut self, m: &'ast syn::ExprMethodCall) {
         if self.try_chain(m) {
             return;
         }
         let name = m.method.to_string();
+        if name == "parse" && m.args.is_empty() && m.turbofish.is_none() {
+            let recv = self.render(&m.receiver);
+            let (s, e) = range(m.span());
+            self.push(s, e, format!("parse_as(&{recv})"), "R9");
+            return;
+        }
+        if name == "to_string" && m.args.is_empty() {
+            let (ms, me) = range(m.method.span());
+            self.visit_expr(&m.receiver);
+            self.push(ms, me, "to_string_o".into(), "R9");
+            return;
+        }
         if name == "get_unchecked" || name == "get_unchecked_mut" {
             let (rs, re) = range(m.receiver.span());
             let (_, pe) = range(m.paren_token.span.open());
@@ -1410,7 +1482,10 @@ fn main() {
             die(&format!("bad argument {}", args[i]));
         }
     }
-    let prelude_dir = tpl_path.parent().unwrap().parent().unwrap().join("prelude");
+    let prelude_dir = match std::env::var("VX_PRELUDE_DIR") {
+        Ok(d) => std::path::PathBuf::from(d),
+        Err(_) => tpl_path.parent().unwrap().parent().unwrap().join("prelude"),
+    };
     let tpl = std::fs::read_to_string(&tpl_path).unwrap_or_else(|e| die(&format!("template: {e}")));
     // 1. expand includes (recursively) and conditionals into a flat list of lines
     let mut lines: Vec<String> = Vec::new();
@@ -1419,7 +1494,7 @@ fn main() {
     // 2. process extraction blocks
     let mut cache: HashMap<String, Src> = HashMap::new();
     let mut report: Vec<serde_json::Value> = Vec::new();
-    let ctx = Ctx { repo: repo.clone(), defs: defs.clone(), tpl_dir: tpl_path.parent().unwrap().to_path_buf(), prelude_dir: prelude_dir.clone() };
+    let ctx = Ctx { repo: repo.clone(), defs: defs.clone(), tpl_dir: match std::env::var("VX_TPL_DIR") { Ok(d) => std::path::PathBuf::from(d), Err(_) => tpl_path.parent().unwrap().to_path_buf() }, prelude_dir: prelude_dir.clone() };
     let out = process_lines(&lines, &ctx, &mut cache, &mut report, None);
     std::fs::write(&args[3], out).unwrap_or_else(|e| die(&format!("write: {e}")));
     std::fs::write(&args[4], serde_json::to_string_pretty(&serde_json::json!({"items": report})).unwrap())
